@@ -62,7 +62,9 @@ FLOORS = {
                               "runs_raise": 40000, "runs_real_loop": 30000,
                               "gens_template_registered": 1800000,
                               "gens_loop_filter_registered": 700000,
-                              "gens_block_registered": 400000, "census_checks": 140000}},
+                              "gens_block_registered": 400000, "census_checks": 140000,
+                              "gens_of_include_templates_registered": 100000,
+                              "cases_with_include_ignore_missing_of_existing_target": 600}},
 }
 
 INC_IGN_EXISTING = re.compile(
